@@ -7,11 +7,11 @@ DIAG_TB = [
 PROPS = {
     "C19": {
         "harness": "vh-diag",
-        "level_text": "Kernel-checked theorems for all line tables / tag lists / codes / ranges about the Diag model of diagnostic_tags.rs + DiagnosticAction::is_match: a diagnostic is dropped iff a tag selecting its code has an occupied position in its scope by lines (comment..next line / own line / enclosing block), touching ranges and other codes/lines/blocks unaffected, file-level set iff a top-level `disable: codes`; the model's surviving set is compared with the real diagnose_file on generated programs every run, and the property statement is evaluated by lines on the implementation independently.",
-        "level_note": "Trusted: Lean kernel, harness/serialisers, the correspondence run as the tie. Modelled: analyze_diagnostic*, LuaDocument::get_line/get_line_range, DiagnosticAction::is_match (after the half-open fix), is_checker_enable_by_code. Not modelled: the parser (comment and block ranges are inputs, validated per case), how each checker computes its ranges.",
+        "level_text": "Kernel-checked theorems for all line tables / tag lists / codes / ranges about the Diag model of diagnostic_tags.rs + DiagnosticAction::is_match: a diagnostic is dropped iff a tag selecting its code has an occupied position in its scope by lines (comment..next line / own line / enclosing block; the end-of-file position belongs to the last line), touching ranges and other codes/lines/blocks unaffected, file-level set iff a top-level `disable: codes`; the model's surviving set is compared with the real diagnose_file on generated programs every run, and the property statement is evaluated by lines on the implementation independently.",
+        "level_note": "Trusted: Lean kernel, harness/serialisers, the correspondence run as the tie. Modelled: analyze_diagnostic*, LuaDocument::get_line/get_line_range, scope_end_of_line, DiagnosticAction::is_match (after the half-open fix), is_checker_enable_by_code. Not modelled: the parser (comment and block ranges are inputs, validated per case), how each checker computes its ranges.",
         "trusted_base": DIAG_TB,
         "assumptions": [
-            "TagOK: a comment node is non-empty, inside the text and inside its enclosing LuaBlock (checked on every generated input)",
+            "TagOK: a comment node is non-empty, inside the text and inside its enclosing LuaBlock, which is inside the text (checked on every generated input)",
             "texts shorter than 2^32 bytes",
         ],
         "technique": "Lean 4 theorems over an executable model + differential correspondence run + by-lines oracle",
